@@ -80,7 +80,12 @@ def c_cx(rng):
         if gv != ev:
             out.append(V(f'cx.array/{state}/{tag}', f'box {eff}: got {len(gv)} rows expected rows {exp}', recipe))
         # series / frame with labels and an extra column
-        labels = [f'r{i}' for i in range(n)]
+        # labels: unique strings, repeated labels, integers that are not the positions (reversed / offset)
+        scheme = rng.choice(['unique', 'unique', 'repeated', 'all-same', 'reversed-ints', 'offset-ints'])
+        labels = {'unique': [f'r{i}' for i in range(n)], 'repeated': [f'r{i % 3}' for i in range(n)],
+                  'all-same': ['r'] * n, 'reversed-ints': list(range(n))[::-1],
+                  'offset-ints': [i + 2 for i in range(n)]}[scheme]
+        recipe['labels'] = scheme
         s = sp.GeoSeries(arr, index=labels)
         gs = s.cx[sx, sy]
         if list(gs.index) != [labels[i] for i in exp]:
